@@ -417,7 +417,7 @@ Fixpoint lin (fuel : nat) (fns : list lkfn) (args : list karg) (path : list bool
       | KExt _ | KLabel _ | KMutexInit _ | KMutexType _ _ | KAtfork _ _ _ => continue_with [] path
       | KCall f cargs =>
         match find_fn fns f with
-        | Some fn => match lin fuel' fns (map (subst_arg args) cargs) path (lk_body fn) with
+        | Some fn => match lin fuel' fns (map (subst_arg args) cargs) path (norm (lk_body fn)) with
                      | Some (ls, p', _) => continue_with ls p'
                      | None => None
                      end
@@ -446,7 +446,7 @@ Fixpoint lin (fuel : nat) (fns : list lkfn) (args : list karg) (path : list bool
 
 Definition lin_fn (fns : list lkfn) (name : string) (path : list bool) : option (list label) :=
   match find_fn fns name with
-  | Some f => match lin 200 fns (repeat KOpaque (lk_nparams f)) path (lk_body f) with
+  | Some f => match lin 200 fns (repeat KOpaque (lk_nparams f)) path (norm (lk_body f)) with
               | Some (ls, [], _) => Some ls
               | _ => None
               end
@@ -540,6 +540,7 @@ Section Classify.
   Variable fns : list lkfn.
   Variable globals : list gobj.
   Variable reach : list string.
+  Variable inlined : list string.      (* static helpers of tsrm.c spliced into their pinned callers by the translator *)
 
   Definition once_fn : string := "snoopy_tsrm_init".
   Definition single_thread_fns : list string :=      (* the atfork child handler runs in a process that has one thread *)
@@ -580,7 +581,7 @@ Section Classify.
          | _ =>
            if forallb (fun a => negb (str_in (a_fn a) reach)) writes then Some PBeforeInit
            else if forallb in_tsrm eff && existsb (fun p => String.eqb (g_name p) R) (pointers_to g) && discipline_ok fns
-                   && forallb (fun a => str_in (a_fn a) (map (fun e => fst (fst e)) expected_core) || str_in (a_fn a) single_thread_fns) eff
+                   && forallb (fun a => str_in (a_fn a) (map (fun e => fst (fst e)) expected_core) || str_in (a_fn a) single_thread_fns || str_in (a_fn a) inlined) eff
                 then Some PMutex
            else None
          end.
@@ -605,11 +606,11 @@ Proof.
   induction l as [|a l IH]; simpl; intros H x Hin; [contradiction|].
   apply app_eq_nil in H as [H1 H2]. destruct Hin as [<-|Hin]; [assumption|now apply IH].
 Qed.
-Lemma globals_ok_all fns gl reach :
-  globals_ok fns gl reach = true -> forall g, In g gl -> exists p, classify fns gl reach g = Some p.
+Lemma globals_ok_all fns gl reach inl :
+  globals_ok fns gl reach inl = true -> forall g, In g gl -> exists p, classify fns gl reach inl g = Some p.
 Proof.
   unfold globals_ok, unprotected. intros H g Hin.
-  destruct (classify fns gl reach g) as [p|] eqn:E; [eauto|]. exfalso.
+  destruct (classify fns gl reach inl g) as [p|] eqn:E; [eauto|]. exfalso.
   destruct (flat_map _ gl) eqn:F; [|discriminate].
   pose proof (flat_map_nil_inv _ _ F g Hin) as Hg. cbv beta in Hg. rewrite E in Hg. discriminate.
 Qed.
@@ -644,8 +645,9 @@ Definition locking_calls : list string :=
   ["pthread_mutex_lock"; "pthread_mutex_trylock"; "pthread_mutex_timedlock"; "pthread_mutex_clocklock"; "pthread_rwlock_rdlock"; "pthread_rwlock_wrlock";
    "pthread_rwlock_tryrdlock"; "pthread_rwlock_trywrlock"; "pthread_spin_lock"; "pthread_spin_trylock"; "pthread_cond_wait"; "pthread_cond_timedwait";
    "pthread_barrier_wait"; "sem_wait"; "sem_timedwait"; "mtx_lock"; "flock"; "lockf"; "flockfile"; "ftrylockfile"].
-Definition locking_confined (fns : list lkfn) (ctors : list string) (refs : list (string * list string)) : bool :=
-  forallb (fun e => negb (existsb (fun f => str_in f locking_calls) (snd e)) || str_in (fst e) (known_names fns ctors)) refs.
+(** [inlined]: file-local static helpers of tsrm.c whose bodies the translator spliced into their (pinned) callers *)
+Definition locking_confined (fns : list lkfn) (ctors inlined : list string) (refs : list (string * list string)) : bool :=
+  forallb (fun e => negb (existsb (fun f => str_in f locking_calls) (snd e)) || str_in (fst e) (known_names fns ctors) || str_in (fst e) inlined) refs.
 
 Lemma all_locks_covered_spec fns globals : all_locks_covered fns globals = true ->
   forall g, In g globals -> is_lock_object g = true -> g_name g = M /\ covered_locks fns = [M].
